@@ -85,11 +85,51 @@ structure Ctx where
   q : Nat
   F : FOps Nat
   elems : List Nat
+  /-- the distinct primes supplied on the line (`pl=r1,r2,…`, big fields), each verified prime by trial division -/
+  pl : Option (List Nat) := none
+  /-- memo: the modulus token of the previous line and whether it is irreducible -/
+  fmIrr : Option (String × Bool) := none
+
+/-- primality by trial division (used on the supplied primes, all < 2^48) -/
+def isPrimeTD (n : Nat) : Bool := Id.run do
+  if n < 2 then return false
+  if n < 4 then return true
+  if n % 2 == 0 then return false
+  let mut d := 3
+  let mut ok := true
+  for _ in [0:n.sqrt / 2 + 1] do
+    if d * d > n then break
+    if n % d == 0 then
+      ok := false
+      break
+    d := d + 2
+  return ok
+
+def stripPrime : Nat → Nat → Nat → Nat
+  | 0, n, _ => n
+  | f + 1, n, r => if r > 1 ∧ n > 0 ∧ n % r = 0 then stripPrime f (n / r) r else n
+
+def stripAll (n : Nat) (L : List Nat) : Nat := L.foldl (fun m r => stripPrime (m.log2 + 1) m r) n
+
+def insertSorted (x : Nat) : List Nat → List Nat
+  | [] => [x]
+  | y :: ys => if x ≤ y then x :: y :: ys else y :: insertSorted x ys
+
+/-- the distinct prime divisors of `N` in increasing order: trial division, or — when a verified prime list travels with
+    the line — those of its members that divide `N`, provided they factor `N` completely (`none` otherwise) -/
+def primesFor (c : Ctx) (N : Nat) : Option (List Nat) :=
+  match c.pl with
+  | none => some (primeFactors N)
+  | some L =>
+    let L' := (L.filter (fun r => N % r == 0)).foldr insertSorted []
+    if N ≥ 1 && stripAll N L' == 1 then some L' else none
 
 def bruteLimit : Nat := 40000
 
 /-- number of trial divisors of the exponential oracle -/
-def bruteCost (c : Ctx) (P : List Nat) : Nat := c.q ^ (((norm c.F P).length - 1) / 2)
+def bruteCost (c : Ctx) (P : List Nat) : Nat :=
+  let h := ((norm c.F P).length - 1) / 2
+  if h = 0 then 1 else if c.q > 100000 || h > 64 then bruteLimit + 1 else c.q ^ h
 
 /-- the irreducibility decision used by the checkers: the exponential oracle whenever it is affordable, else the model of
     the (proved) distinct-degree criterion -/
@@ -116,6 +156,11 @@ def highMult (c : Ctx) (P : List Nat) : Bool :=
   let g := if degree c.F g ≤ 0 then [c.F.one] else monicize c.F g
   highMultLoop c (f.length + 2) 1 (pdiv c.F f g) g
 
+def irrFm (c : Ctx) (sF : String) (Fm : List Nat) : Bool :=
+  match c.fmIrr with
+  | some (k, v) => if k == sF then v else irrDecide c Fm
+  | none => irrDecide c Fm
+
 def cls (c : Ctx) (P : List Nat) : String :=
   if highMult c P then " class=mult-ge-char" else ""
 
@@ -128,13 +173,16 @@ def verdict (specOk modelOk : Bool) (extra model line : String) : String :=
 def b2s (b : Bool) : String := if b then "1" else "0"
 
 /-- `R` is a primitive root modulo the irreducible `Fm`: order `q^n - 1`, by repeated multiplication when the group is
-    small and always by the (proved) prime-divisor certificate -/
+    small and always by the (proved: `primitive_iff` / `order_certificate`) prime-divisor certificate -/
 def primitiveSpec (c : Ctx) (R Fm : List Nat) : Bool :=
   let n := (norm c.F Fm).length - 1
   let qp := c.q ^ n - 1
   let A := pmod c.F R Fm
-  let cert := checkOrder c.F A Fm qp (primeFactors qp)
-  if qp ≤ 130 then cert && (bruteOrder c.F (qp + 1) A Fm == qp) else cert
+  match primesFor c qp with
+  | none => false
+  | some L =>
+    let cert := checkOrder c.F A Fm qp L
+    if qp ≤ 130 then cert && (bruteOrder c.F (qp + 1) A Fm == qp) else cert
 
 def orderSpecOk (c : Ctx) (P Fm : List Nat) (o : Nat) : Bool :=
   let n := (norm c.F Fm).length - 1
@@ -143,12 +191,37 @@ def orderSpecOk (c : Ctx) (P Fm : List Nat) (o : Nat) : Bool :=
   let inv := degree c.F (pgcd c.F A Fm) ≤ 0 && norm c.F A ≠ []
   if !inv then o == 0
   else
-    let cert := checkOrder c.F A Fm o (primeFactors o)
-    if qp ≤ 130 then cert && (bruteOrder c.F (qp + 1) A Fm == o) else cert
+    match primesFor c o with
+    | none => false
+    | some L =>
+      let cert := checkOrder c.F A Fm o L
+      if qp ≤ 130 then cert && (bruteOrder c.F (qp + 1) A Fm == o) else cert
+
+def modelPrimes (c : Ctx) (Fm : List Nat) : List Nat :=
+  (primesFor c (c.q ^ ((norm c.F Fm).length - 1) - 1)).getD []
+
+def splitBar (res : List String) : List String × List String :=
+  (res.takeWhile (· != "|"), (res.dropWhile (· != "|")).drop 1)
 
 def handle (c : Ctx) (op : String) (args res : List String) (line : String) : String :=
   let F := c.F
+  -- the overloads taking MOD explicitly (called with MOD = residu()) are decided like the forwarding ones
+  let op := if op == "irrM" then "irr" else if op == "irr2M" then "irr2" else if op == "czfM" || op == "czfF" then "czf" else op
   match op, args with
+  | "czf2", [sP1, sP2] =>
+    -- two factorisations accumulated into the SAME lists: `A… | B…` = the lists after the first / after the second call
+    match parsePoly sP1, parsePoly sP2 with
+    | some P1, some P2 =>
+      if norm F P1 = [] || norm F P2 = [] then "PRE" else
+      let (r1, r2) := splitBar res
+      let r1 := if r1 == ["none"] then [] else r1
+      let r2 := if r2 == ["none"] then [] else r2
+      match r1.mapM parseFactor, (r2.drop r1.length).mapM parseFactor with
+      | some L1, some L2 =>
+        let ok := r2.take r1.length == r1 && checkFactorList F (irrDecide c) P1 L1 && checkFactorList F (irrDecide c) P2 L2
+        verdict ok true (cls c P1 ++ cls c P2) "-" line
+      | _, _ => verdict false true (cls c P1 ++ cls c P2) "-" line
+    | _, _ => "BAD args | " ++ line
   | "irr", [sP] | "irr2", [sP] =>
     match parsePoly sP, res with
     | some P, [r] =>
@@ -180,24 +253,24 @@ def handle (c : Ctx) (op : String) (args res : List String) (line : String) : St
   | "ord", [sP, sF] =>
     match parsePoly sP, parsePoly sF, res with
     | some P, some Fm, [r] =>
-      if !(irrDecide c Fm) then "PRE" else
+      if !(irrFm c sF Fm) then "PRE" else
       match parseHexNat r with
       | none => verdict false true "" "-" line
       | some o =>
-        let m := order F c.q P Fm
+        let m := orderL F c.q P Fm (modelPrimes c Fm)
         verdict (orderSpecOk c P Fm o) (o == m) "" (hexNat m) line
     | _, _, _ => "BAD args | " ++ line
   | "ipr", [sP, sF] =>
     match parsePoly sP, parsePoly sF, res with
     | some P, some Fm, [r] =>
-      if !(irrDecide c Fm) then "PRE" else
-      let m := isPrimRoot F c.q P Fm
+      if !(irrFm c sF Fm) then "PRE" else
+      let m := isPrimRootL F c.q P Fm (modelPrimes c Fm)
       verdict (r == b2s (primitiveSpec c P Fm)) (r == b2s m) "" (b2s m) line
     | _, _, _ => "BAD args | " ++ line
   | "gpr", [sF] | "grp", [sF] =>
     match parsePoly sF, res with
     | some Fm, [r] =>
-      if !(irrDecide c Fm) then "PRE" else
+      if !(irrFm c sF Fm) then "PRE" else
       match parsePoly r with
       | some R => verdict (primitiveSpec c R Fm) true "" "-" line
       | none => verdict false true "" "-" line
@@ -230,20 +303,61 @@ end PF
 def mkCtx (p k irr : Nat) : PF.Ctx :=
   let q := p ^ k
   let G := PF.fqOps p k irr
-  { p := p, k := k, q := q, F := if k ≥ 2 ∧ q ≤ 300 then PF.tabulate q G else G, elems := List.range q }
+  { p := p, k := k, q := q, F := if k ≥ 2 ∧ q ≤ 300 then PF.tabulate q G else G,
+    elems := if q ≤ 100000 then List.range q else [] }
 
-def polyFactorWith (cache : Option ((Nat × Nat × Nat) × PF.Ctx)) (line : String) : String × Option ((Nat × Nat × Nat) × PF.Ctx) :=
+/-- cache: the field of the previous line and the last verified prime list -/
+structure Cache where
+  key : Nat × Nat × Nat
+  ctx : PF.Ctx
+  plKey : String := ""
+  plVal : Option (List Nat) := none
+  fmIrr : Option (String × Bool) := none
+
+def polyFactorWith (cache : Option Cache) (line : String) : String × Option Cache :=
   match splitLine line with
   | none => ("BAD empty", cache)
   | some (op, args, res) =>
     match args with
     | _dom :: sp :: sk :: sirr :: rest =>
       match parseHexNat sp, parseHexNat sk, parseHexNat sirr with
-      | some p, some k, some irr =>
-        let c : PF.Ctx := match cache with
-          | some (key, c) => if key == (p, k, irr) then c else mkCtx p k irr
+      | some p, some k0, some irr =>
+        let k := k0
+        let c0 : PF.Ctx := match cache with
+          | some ch => if ch.key == (p, k, irr) then ch.ctx else mkCtx p k irr
           | none => mkCtx p k irr
-        (PF.handle c op rest res line, some ((p, k, irr), c))
+        let plTok := rest.find? (fun t => t.startsWith "pl=")
+        let rest' := rest.filter (fun t => !t.startsWith "pl=")
+        -- memo of "the modulus is irreducible" for the order/primitivity operations
+        let fmTok : Option String :=
+          if op == "ord" || op == "ipr" then rest'[1]? else if op == "gpr" || op == "grp" then rest'[0]? else none
+        let fmIrr : Option (String × Bool) := match fmTok with
+          | none => (cache.bind (·.fmIrr))
+          | some t =>
+            match cache.bind (·.fmIrr) with
+            | some (k, v) => if k == t && (cache.map (·.key)) == some (p, k0, irr) then some (k, v) else
+                (PF.parsePoly t).map (fun Fm => (t, PF.irrDecide c0 Fm))
+            | none => (PF.parsePoly t).map (fun Fm => (t, PF.irrDecide c0 Fm))
+        let c0 := { c0 with fmIrr := fmIrr }
+        match plTok with
+        | none =>
+          let c := { c0 with pl := none }
+          (PF.handle c op rest' res line, some { key := (p, k, irr), ctx := { c0 with fmIrr := none }, plKey := (cache.map (·.plKey)).getD "", plVal := (cache.bind (·.plVal)), fmIrr := fmIrr })
+        | some t =>
+          -- verify the supplied primes once per distinct list
+          let cachedPl : Option (Option (List Nat)) := match cache with
+            | some ch => if ch.plKey == t then some ch.plVal else none
+            | none => none
+          let plVal : Option (List Nat) := match cachedPl with
+            | some v => v
+            | none =>
+              match ((t.drop 3).toString.splitOn ",").mapM parseHexNat with
+              | some L => if L.all PF.isPrimeTD then some L else none
+              | none => none
+          let newCache : Cache := { key := (p, k, irr), ctx := { c0 with fmIrr := none }, plKey := t, plVal := plVal, fmIrr := fmIrr }
+          match plVal with
+          | none => ("BAD pl (a supplied factor is not prime) | " ++ line, some newCache)
+          | some L => (PF.handle { c0 with pl := some L } op rest' res line, some newCache)
       | _, _, _ => ("BAD field | " ++ line, cache)
     | _ => ("BAD short | " ++ line, cache)
 
@@ -251,7 +365,7 @@ def polyFactorLine (line : String) : String := (polyFactorWith none line).1
 
 /-- stateful loop: the tabulated field of the previous line is reused (lines arrive grouped by field) -/
 partial def polyFactorMain (h : IO.FS.Stream) : IO Unit := do
-  let rec loop (cache : Option ((Nat × Nat × Nat) × PF.Ctx)) : IO Unit := do
+  let rec loop (cache : Option Cache) : IO Unit := do
     let line ← h.getLine
     if line.isEmpty then return ()
     let (v, cache') := polyFactorWith cache line
